@@ -55,14 +55,19 @@ pub struct Cond(pub u8);
 impl Conditions for Cond {}
 
 /// What the explorations need from a condition type.
-pub trait CT: Conditions + Copy + Eq + Ord + Hash + Send + Sync + Debug + 'static {
+pub trait CT: Conditions + Copy + Eq + Ord + Hash + Send + Sync + Debug + Serialize + for<'a> Deserialize<'a> + 'static {
     const NAME: &'static str;
+    /// Condition number i (0 = none); a larger number grants more.
+    fn mk(i: u8) -> Option<Self>;
     /// Index 0 is always "no conditions".
     fn conds() -> Vec<Option<Self>>;
     fn show(c: &Option<Self>) -> String;
 }
 impl CT for () {
     const NAME: &'static str = "unit";
+    fn mk(_: u8) -> Option<Self> {
+        None
+    }
     fn conds() -> Vec<Option<Self>> {
         vec![None]
     }
@@ -72,6 +77,9 @@ impl CT for () {
 }
 impl CT for Cond {
     const NAME: &'static str = "total";
+    fn mk(i: u8) -> Option<Self> {
+        if i == 0 { None } else { Some(Cond(i)) }
+    }
     fn conds() -> Vec<Option<Self>> {
         vec![None, Some(Cond(1)), Some(Cond(2))]
     }
@@ -301,6 +309,7 @@ pub struct Cand<C> {
 /// A small explicit menu of operations.  Accesses are (level, condition index).
 #[derive(Clone, Debug)]
 pub struct AlphaCfg {
+    #[allow(dead_code)]
     pub name: &'static str,
     pub actors: Vec<Id>,
     pub groups: Vec<Id>,
